@@ -65,6 +65,11 @@ func (h *stackHandler) ServeHTTP(w http.ResponseWriter, req *http.Request) {
 		conn.Close()
 		return
 	}
+	if boolOr(sc, "early", false) { // an informational response (103 Early Hints) before the final one
+		w.Header().Set("Link", "</style.css>; rel=preload")
+		w.WriteHeader(http.StatusEarlyHints)
+		w.Header().Del("Link")
+	}
 	for _, hn := range list(sc, "hdrs") {
 		w.Header().Add(hn.(string), "h-"+hn.(string))
 	}
